@@ -66,6 +66,7 @@ def _satsolve_filein_fileout(F, cmd='minisat', verbose=0):
     sat.close()
 
     output = b''
+    foutput = []
 
     # Run the command, store its output and remove the temporary files.
     try:
@@ -212,9 +213,10 @@ def _satsolve_stdin_stdout(F, cmd='lingeling', verbose=0):
             continue
 
         if line[0] == 's':
-            if line.split()[1] == 'SATISFIABLE':
+            verdict = line.split()[1:2]
+            if verdict == ['SATISFIABLE']:
                 result = True
-            elif line.split()[1] == 'UNSATISFIABLE':
+            elif verdict == ['UNSATISFIABLE']:
                 result = False
             else:
                 result = None
@@ -305,9 +307,10 @@ def _satsolve_filein_stdout(F, cmd='sat4j', verbose=0):
             continue
 
         if line[0] == 's':
-            if line.split()[1] == 'SATISFIABLE':
+            verdict = line.split()[1:2]
+            if verdict == ['SATISFIABLE']:
                 result = True
-            elif line.split()[1] == 'UNSATISFIABLE':
+            elif verdict == ['UNSATISFIABLE']:
                 result = False
             else:
                 result = None
